@@ -5,4 +5,7 @@ cd /verif/mc
 export CARGO_NET_OFFLINE=true RUST_BACKTRACE=0
 mkdir -p /verif/work /verif/evidence /verif/replays
 cargo build --release --offline
+# pre-build the quick tier of the generated Rust harness (cached by content; the checks rebuild
+# only what a change in /repo alters)
+./target/release/pdlmc build-rust quick
 echo "setup ok"
